@@ -10,6 +10,7 @@ import (
 	"fmt"
 	"os"
 	"os/exec"
+	"runtime"
 	"sort"
 	"strconv"
 	"strings"
@@ -196,38 +197,56 @@ func enumerate() []history {
 			}
 		}
 	}
-	// (B) all histories over a reduced alphabet with <= D deviations
-	nvar, maxOps, maxDev := 2, 3, 1
-	if th {
-		nvar, maxOps, maxDev = 3, 4, 2
+	// (B) all histories over reduced alphabets with <= D deviations. The
+	// bounds are chosen so that the whole list can really be executed (quick:
+	// ~3.4k histories, thorough: ~45k); every block below is complete for
+	// its alphabet, length and deviation count.
+	type block struct {
+		n, l, maxDev int
+		alpha        []op
 	}
-	for _, n := range []int{1, 3} {
-		roles := []string{"L"}
-		if n == 3 && th {
-			roles = []string{"L", "F"}
+	collide := func(roles ...string) []op { // one CID, two variants
+		var out []op
+		for _, r := range roles {
+			out = append(out, op{"pin", 0, 0, r}, op{"pin", 1, 0, r}, op{"unpin", 0, 0, r})
 		}
-		alpha := opAlphabet(nvar, roles)
-		for l := 1; l <= maxOps; l++ {
-			if n == 1 && l > 2 && !th {
-				continue
-			}
-			a := alpha
-			if l == 3 && !th {
-				// quick: length-3 histories over one colliding CID only
-				a = []op{{"pin", 0, 0, "L"}, {"pin", 1, 0, "L"}, {"unpin", 0, 0, "L"}}
-			}
-			for _, s := range seqs(a, l) {
-				hs = append(hs, history{N: n, Ops: s})
-				ds := devsFor(n, l, th)
-				for i, d := range ds {
-					hs = append(hs, history{N: n, Ops: s, Devs: []dev{d}})
-					if maxDev >= 2 && l <= 3 {
-						for _, d2 := range ds[i+1:] {
-							if overlap(d, d2) {
-								continue
-							}
-							hs = append(hs, history{N: n, Ops: s, Devs: []dev{d, d2}})
+		return out
+	}
+	var blocks []block
+	if !th {
+		full := opAlphabet(2, []string{"L"})
+		blocks = []block{
+			{1, 1, 1, full}, {1, 2, 1, full},
+			{3, 1, 1, full}, {3, 2, 1, full}, {3, 3, 1, collide("L")},
+		}
+	} else {
+		full1 := opAlphabet(2, []string{"L"})
+		full3 := opAlphabet(2, []string{"L", "F"})
+		blocks = []block{
+			{1, 1, 2, full1}, {1, 2, 1, full1}, {1, 3, 1, full1}, {1, 2, 2, collide("L")}, {1, 4, 1, collide("L")},
+			{3, 1, 2, full3}, {3, 2, 1, full3}, {3, 3, 1, collide("L", "F")}, {3, 2, 2, collide("L")}, {3, 4, 1, collide("L")},
+		}
+	}
+	seen := map[string]bool{}
+	add := func(h history) {
+		k := h.String()
+		if !seen[k] {
+			seen[k] = true
+			hs = append(hs, h)
+		}
+	}
+	for _, b := range blocks {
+		for _, s := range seqs(b.alpha, b.l) {
+			add(history{N: b.n, Ops: s})
+			ds := devsFor(b.n, b.l, th)
+			for i, d := range ds {
+				add(history{N: b.n, Ops: s, Devs: []dev{d}})
+				if b.maxDev >= 2 {
+					for _, d2 := range ds[i+1:] {
+						if overlap(d, d2) {
+							continue
 						}
+						add(history{N: b.n, Ops: s, Devs: []dev{d, d2}})
 					}
 				}
 			}
@@ -901,6 +920,12 @@ func TestHistories(t *testing.T) {
 		}
 		outcome, viol, states, trans := run(t, h)
 		done++
+		if os.Getenv("VERIF_MEMTRACE") != "" && done%10 == 0 {
+			var ms runtime.MemStats
+			runtime.GC()
+			runtime.ReadMemStats(&ms)
+			fmt.Printf("E2 MEMTRACE shard %d done=%d goroutines=%d heap=%dMB sys=%dMB\n", shard, done, runtime.NumGoroutine(), ms.HeapAlloc>>20, ms.Sys>>20)
+		}
 		R.Eval(sec, h.shape()+"|"+outcome, true)
 		R.Outcome(sec, outcome)
 		R.States(sec, int64(len(states)))
